@@ -8,8 +8,8 @@
 (* Alphabet: A, B, C, D and the clashing variants A2 (letter a) and        *)
 (* B2 (letter b) with other names and item counts, and A3: the NAME of A   *)
 (* with the LETTER of B (names and letters are independent attributes).    *)
-(* Sets in which two dimensions share a NAME are not explored (lookup by   *)
-(* name would be ambiguous): state constraint NamesUnique.                 *)
+(* Two dimensions of a set may share a NAME (only letters are unique):     *)
+(* such a name is then not used as a key, the letters are.                 *)
 (***************************************************************************)
 EXTENDS Integers, Sequences, FiniteSets, TLC, Json
 CONSTANTS Scenario, Depth, MaxLen, Alphabet, Emit,
@@ -40,7 +40,9 @@ Init == /\ IF Scenario = "pairs"
         /\ hist = <<>>
 
 BinOps == {"union", "inter", "diff", "xor", "plus"}
-Keys(s) == LetterSet(s) \cup {MCNameOf[s[i]] : i \in DOMAIN s} \cup {"zz"}      \* "zz": unknown key
+\* keys: every letter, every name that occurs ONCE in the set (two dimensions may share a name - only letters are unique -
+\* and then only the letter identifies them), and the unknown key "zz"
+Keys(s) == LetterSet(s) \cup {MCNameOf[s[i]] : i \in {j \in DOMAIN s : \A k \in DOMAIN s : MCNameOf[s[k]] = MCNameOf[s[j]] => k = j}} \cup {"zz"}
 
 PairActions == \E op \in BinOps : Binary(op, "r1", "r2", "r3")
 
